@@ -344,15 +344,93 @@ theorem stepThread_sem {cfg : Cfg} {i : Nat} {sh sh' : Shared} {t t' : Thread} {
   split at h <;> (try split at h) <;> (try split at h) <;> simp at h <;>
     (obtain ⟨rfl, rfl, rfl, _⟩ := h) <;> simp_all [PcOK, PcLe, mWt, mW, mP, Thread.goto] <;> omega
 
-/-- with the repaired notify list: `notify` only moves together with a broadcast, and a thread goes to sleep only
-    with a ticket that has not been notified -/
-theorem stepThread_notify {cfg : Cfg} {i : Nat} {sh sh' : Shared} {t t' : Thread} {w : Wake} {ev : Option Event}
-    (h : stepThread cfg i sh t = some (sh', t', w, ev)) (h1 : cfg.ticketLess = true) (h2 : cfg.oneBroadcast = true) :
+/-- the thread holds the notify list's mutex -/
+def holdsN (t : Thread) : Bool :=
+  match t.pc with
+  | .wLoad _ | .naLoadWait | .naStore _ | .n1LoadNotify | .n1LoadWait _ | .n1Add => true
+  | _ => false
+
+/-- what a thread knows about the TRUE ticket counters: its ticket was drawn (`c0 ≤ tk < wait`), the value of `wait` it
+    read is not ahead, the value of `notify` it read under the mutex is still current -/
+def NlLocal (c0 : Nat) (sh : Shared) (t : Thread) : Prop :=
+  match t.pc with
+  | .wGet tk | .wLock tk | .wLoad tk | .wWait tk | .wWoken tk => c0 ≤ tk ∧ tk < sh.wait
+  | .naStore w => sh.notify ≤ w ∧ w ≤ sh.wait
+  | .n1LoadWait n => n = sh.notify
+  | .n1Add => sh.notify < sh.wait
+  | _ => True
+
+theorem finish_pc_cases (t : Thread) : t.finish.pc = .done ∨ t.finish.pc = .aLoad1 ∨ t.finish.pc = .rAdd ∨
+    t.finish.pc = .wAdd ∨ t.finish.pc = .n1Get ∨ t.finish.pc = .naGet := by
+  unfold Thread.finish
+  split
+  · simp
+  · rename_i o r _
+    cases o <;> simp [firstPc]
+
+theorem finish_nl (c0 : Nat) (sh : Shared) (t : Thread) : NlLocal c0 sh t.finish ∧ holdsN t.finish = false := by
+  unfold Thread.finish
+  split
+  · simp [NlLocal, holdsN]
+  · rename_i o r _
+    cases o <;> simp [NlLocal, holdsN, firstPc]
+
+theorem start_nl (c0 : Nat) (sh : Shared) (p : List Op) : NlLocal c0 sh (Thread.start p) ∧ holdsN (Thread.start p) = false := by
+  unfold Thread.start
+  split
+  · simp [NlLocal, holdsN]
+  · rename_i o r
+    cases o <;> simp [NlLocal, holdsN, firstPc]
+
+theorem wake_nl {c0 : Nat} {sh : Shared} {t : Thread} (h : NlLocal c0 sh t) : NlLocal c0 sh t.wake := by
+  unfold Thread.wake; split <;> simp_all [NlLocal, Thread.goto]
+
+theorem wake_holdsN (t : Thread) : holdsN t.wake = holdsN t := by
+  unfold Thread.wake; split <;> simp_all [holdsN, Thread.goto]
+
+/-- what a thread knows stays true while `notify` is untouched and `wait` only grows -/
+theorem nlLocal_frame {c0 : Nat} {sh sh' : Shared} {u : Thread} (h : NlLocal c0 sh u) (hw : sh.wait ≤ sh'.wait)
+    (hn : sh'.notify = sh.notify ∨ holdsN u = false) : NlLocal c0 sh' u := by
+  unfold NlLocal at *
+  unfold holdsN at hn
+  split <;> simp_all <;> omega
+
+/-- One step of one thread and the notify list's counters: order `c0 ≤ notify ≤ wait`, the local knowledge of the stepping
+    thread, the mutex, and how the step frames the others (`notify` and the mutex only move in the hands of the holder). -/
+theorem stepThread_nl {cfg : Cfg} {c0 i : Nat} {sh sh' : Shared} {t t' : Thread} {w : Wake} {ev : Option Event}
+    (h : stepThread cfg i sh t = some (sh', t', w, ev))
+    (hN : c0 ≤ sh.notify ∧ sh.notify ≤ sh.wait) (hl : NlLocal c0 sh t) (hm : holdsN t = true → sh.nmu = some i) :
+    (c0 ≤ sh'.notify ∧ sh'.notify ≤ sh'.wait) ∧ NlLocal c0 sh' t' ∧ (holdsN t' = true → sh'.nmu = some i) ∧
+    sh.wait ≤ sh'.wait ∧ sh.notify ≤ sh'.notify ∧
+    ((sh'.notify = sh.notify ∧ sh'.nmu = sh.nmu) ∨ (sh.nmu = none ∧ sh'.notify = sh.notify) ∨ holdsN t = true) := by
+  have f2 := (finish_nl c0 sh t).2
+  unfold stepThread at h
+  split at h <;> (try split at h) <;> (try split at h) <;> simp at h <;>
+    (obtain ⟨rfl, rfl, _, _⟩ := h) <;> simp_all [NlLocal, holdsN, Thread.goto, W32] <;>
+    (try (rcases finish_pc_cases t with hp | hp | hp | hp | hp | hp <;> simp [hp])) <;> (try omega)
+
+/-- a recorded return carries a ticket that was drawn -/
+theorem stepThread_rets_range {cfg : Cfg} {c0 i : Nat} {sh sh' : Shared} {t t' : Thread} {w : Wake} {ev : Option Event}
+    (h : stepThread cfg i sh t = some (sh', t', w, ev)) (hl : NlLocal c0 sh t) :
+    sh'.rets = sh.rets ∨ ∃ tk, c0 ≤ tk ∧ tk < sh.wait ∧ sh'.rets = (i, tk, sh.notify) :: sh.rets := by
+  unfold stepThread at h
+  split at h <;> (try split at h) <;> (try split at h) <;> simp at h <;>
+    (obtain ⟨rfl, rfl, _, _⟩ := h) <;> simp_all [NlLocal, Thread.goto]
+
+/-- with the repaired notify list: `notify` only moves together with a broadcast, and — while fewer than 2^31 tickets
+    have been drawn — a thread goes to sleep only with a ticket that has not been notified (the wrapped comparison
+    `notifyLess` is exact in that range) -/
+theorem stepThread_notify {cfg : Cfg} {c0 i : Nat} {sh sh' : Shared} {t t' : Thread} {w : Wake} {ev : Option Event}
+    (h : stepThread cfg i sh t = some (sh', t', w, ev)) (h1 : cfg.ticketLess = true) (h2 : cfg.oneBroadcast = true)
+    (hN : c0 ≤ sh.notify ∧ sh.notify ≤ sh.wait) (hl : NlLocal c0 sh t) (hb : sh.wait < c0 + 2147483648) :
     (sh'.notify = sh.notify ∨ w = .listAll) ∧ (∀ tk, t'.pc = .wWait tk → sh'.notify ≤ tk) := by
   have hf := finish_not_listWaiting t
   unfold stepThread at h
   split at h <;> (try split at h) <;> (try split at h) <;> simp at h <;>
-    (obtain ⟨rfl, rfl, rfl, _⟩ := h) <;> simp_all [keepWaiting, Thread.goto]
+    (obtain ⟨rfl, rfl, rfl, _⟩ := h) <;> simp_all [keepWaiting, less32, W32, NlLocal, Thread.goto]
+  all_goals first
+    | omega
+    | (have hk := of_decide_eq_false ‹decide _ = false›; omega)
 
 /-! ### predicates on all threads, through `set` and the wake-ups -/
 
@@ -536,13 +614,13 @@ theorem total_start (m : Thread → Nat) (h : ∀ p, m (Thread.start p) = 0) :
   | nil => rfl
   | cons p ps ih => simp [total, h p, ih]
 
-theorem baseInv_init (cfg : Cfg) (v : Nat) (progs : List (List Op)) : BaseInv cfg v (init v progs) where
+theorem baseInv_init (cfg : Cfg) (v c0 : Nat) (progs : List (List Op)) : BaseInv cfg v (initAt v c0 progs) where
   ok := allT_start _ start_pcOK progs
-  cons := by simp [init, initShared]
-  saw := by simp [init, initShared]
-  rets := by simp [init, initShared]
+  cons := by simp [initAt, initShared]
+  saw := by simp [initAt, initShared]
+  rets := by simp [initAt, initShared]
   tk := allT_start _ (start_tkOK _) progs
-  mx := by simp [init, initShared]
+  mx := by simp [initAt, initShared]
   le := allT_start _ (start_pcLe _) progs
 
 theorem baseInv_next {cfg : Cfg} {v0 : Nat} {s s' : State} {a : Action} (h : BaseInv cfg v0 s)
@@ -570,9 +648,9 @@ theorem baseInv_next {cfg : Cfg} {v0 : Nat} {s s' : State} {a : Action} (h : Bas
       allT_set h.tk (wake_tkOK (allT_get h.tk ht)), h.mx, allT_set h.le (wake_pcLe (allT_get h.le ht))⟩,
       Nat.le_refl _⟩
 
-theorem baseInv_reachable {cfg : Cfg} {v : Nat} {progs : List (List Op)} {s : State}
-    (hr : Reachable cfg (init v progs) s) : BaseInv cfg v s :=
-  reachable_induction (BaseInv cfg v) (baseInv_init cfg v progs) (fun _ _ _ h hn => (baseInv_next h hn).1) s hr
+theorem baseInv_reachable {cfg : Cfg} {v c0 : Nat} {progs : List (List Op)} {s : State}
+    (hr : Reachable cfg (initAt v c0 progs) s) : BaseInv cfg v s :=
+  reachable_induction (BaseInv cfg v) (baseInv_init cfg v c0 progs) (fun _ _ _ h hn => (baseInv_next h hn).1) s hr
 
 /-- the semaphore's wake-up bookkeeping -/
 structure SemInv (s : State) : Prop where
@@ -581,9 +659,9 @@ structure SemInv (s : State) : Prop where
   /-- while somebody sleeps, every permit is matched by a pending wake-up or re-check -/
   lw : 0 < total mWt s.threads → s.sh.val ≤ total mP s.threads
 
-theorem semInv_init (v : Nat) (progs : List (List Op)) : SemInv (init v progs) where
-  wc := by simp [init, initShared, total_start mW (fun p => (start_measures p).2.1)]
-  lw := by simp [init, total_start mWt (fun p => (start_measures p).1)]
+theorem semInv_init (v c0 : Nat) (progs : List (List Op)) : SemInv (initAt v c0 progs) where
+  wc := by simp [initAt, initShared, total_start mW (fun p => (start_measures p).2.1)]
+  lw := by simp [initAt, total_start mWt (fun p => (start_measures p).1)]
 
 theorem semInv_next {cfg : Cfg} {v0 : Nat} {s s' : State} {a : Action} (hb : BaseInv cfg v0 s) (h : SemInv s)
     (hn : next cfg s a = some s') (hc : cfg.casRetry = true ∨ s'.sh.maxVal ≤ 1) : SemInv s' := by
@@ -652,28 +730,175 @@ theorem semInv_next {cfg : Cfg} {v0 : Nat} {s s' : State} {a : Action} (hb : Bas
 
 /-- `SemInv` holds in every reachable state of the repaired code, and of the pinned code as long as the count has
     never exceeded 1 -/
-theorem semInv_reachable {cfg : Cfg} {v : Nat} {progs : List (List Op)} {s : State}
-    (hr : Reachable cfg (init v progs) s) : (cfg.casRetry = true ∨ s.sh.maxVal ≤ 1) → SemInv s := by
+theorem semInv_reachable {cfg : Cfg} {v c0 : Nat} {progs : List (List Op)} {s : State}
+    (hr : Reachable cfg (initAt v c0 progs) s) : (cfg.casRetry = true ∨ s.sh.maxVal ≤ 1) → SemInv s := by
   induction hr with
-  | refl => intro _; exact semInv_init v progs
+  | refl => intro _; exact semInv_init v c0 progs
   | step a hr' hn ih =>
     intro hc
     have hb := baseInv_reachable hr'
     have hmono := (baseInv_next hb hn).2
     exact semInv_next hb (ih (by rcases hc with hc | hc; exact Or.inl hc; exact Or.inr (by omega))) hn hc
 
+/-! ### the notify list's true counters, its mutex, and the wrapped comparisons -/
+
+theorem applyWake_get {l l' : List Thread} {w : Wake} {pick : Nat} (ha : applyWake l w pick = some l') :
+    ∀ (j : Nat) (u : Thread), l'[j]? = some u → ∃ u0, l[j]? = some u0 ∧ (u = u0 ∨ u = u0.wake) := by
+  intro j u hu
+  have hset : ∀ (p : Nat) (t0 : Thread), l[p]? = some t0 → (l.set p t0.wake)[j]? = some u →
+      ∃ u0, l[j]? = some u0 ∧ (u = u0 ∨ u = u0.wake) := by
+    intro p t0 hp hu'
+    by_cases hj : j = p
+    · subst hj
+      have hlt : j < l.length := (List.getElem?_eq_some_iff.mp hp).1
+      simp [List.getElem?_set_self hlt] at hu'
+      exact ⟨t0, hp, Or.inr hu'.symm⟩
+    · rw [List.getElem?_set_ne (Ne.symm hj)] at hu'
+      exact ⟨u, hu', Or.inl rfl⟩
+  unfold applyWake at ha
+  cases w with
+  | none => simp at ha; subst ha; exact ⟨u, hu, Or.inl rfl⟩
+  | semOne =>
+    simp only at ha
+    rcases signalOne_inv ha with ⟨_, rfl⟩ | ⟨t0, ht0, _, rfl⟩
+    · exact ⟨u, hu, Or.inl rfl⟩
+    · exact hset pick t0 ht0 hu
+  | listOne =>
+    simp only at ha
+    rcases signalOne_inv ha with ⟨_, rfl⟩ | ⟨t0, ht0, _, rfl⟩
+    · exact ⟨u, hu, Or.inl rfl⟩
+    · exact hset pick t0 ht0 hu
+  | listAll =>
+    simp only [Option.some.injEq] at ha
+    subst ha
+    simp only [List.getElem?_map] at hu
+    cases hl : l[j]? with
+    | none => simp [hl] at hu
+    | some u0 =>
+      simp only [hl, Option.map_some, Option.some.injEq] at hu
+      refine ⟨u0, rfl, ?_⟩
+      by_cases hw : u0.listWaiting = true
+      · simp only [hw, if_true] at hu; exact Or.inr hu.symm
+      · simp only [hw] at hu; exact Or.inl (by simpa using hu.symm)
+
+/-- the notify list: true counters in order, every thread's local knowledge, the mutex has one holder, and every return
+    recorded a ticket and a `notify` value inside the range of the counters -/
+structure NlInv (c0 : Nat) (s : State) : Prop where
+  ord : c0 ≤ s.sh.notify ∧ s.sh.notify ≤ s.sh.wait
+  loc : ∀ (j : Nat) (u : Thread), s.threads[j]? = some u → NlLocal c0 s.sh u
+  mux : ∀ (j : Nat) (u : Thread), s.threads[j]? = some u → holdsN u = true → s.sh.nmu = some j
+  rng : ∀ r ∈ s.sh.rets, c0 ≤ r.2.1 ∧ r.2.1 < s.sh.wait ∧ c0 ≤ r.2.2 ∧ r.2.2 ≤ s.sh.wait
+
+theorem nlInv_init (v c0 : Nat) (progs : List (List Op)) : NlInv c0 (initAt v c0 progs) := by
+  have fresh : ∀ (j : Nat) (u : Thread), (initAt v c0 progs).threads[j]? = some u →
+      NlLocal c0 (initAt v c0 progs).sh u ∧ holdsN u = false := by
+    intro j u hu
+    have hm := List.mem_of_getElem? hu
+    simp only [initAt, List.mem_map] at hm
+    obtain ⟨p, _, rfl⟩ := hm
+    exact start_nl c0 _ p
+  refine ⟨by simp [initAt, initShared], fun j u hu => (fresh j u hu).1, ?_, by simp [initAt, initShared]⟩
+  intro j u hu hh
+  rw [(fresh j u hu).2] at hh; simp at hh
+
+theorem nlInv_next {cfg : Cfg} {c0 : Nat} {s s' : State} {a : Action} (h : NlInv c0 s)
+    (hn : next cfg s a = some s') : NlInv c0 s' ∧ s.sh.wait ≤ s'.sh.wait := by
+  cases a with
+  | step i pick =>
+    obtain ⟨t, sh', t', w, ev, ths, ht, hs, ha, rfl⟩ := next_step_inv hn
+    obtain ⟨g1, g2, g3, gw, gn, fr⟩ := stepThread_nl hs h.ord (h.loc i t ht) (h.mux i t ht)
+    have hlt : i < s.threads.length := (List.getElem?_eq_some_iff.mp ht).1
+    -- the threads after `set`, before the wake-up
+    have mid : ∀ (j : Nat) (u : Thread), (s.threads.set i t')[j]? = some u →
+        NlLocal c0 sh' u ∧ (holdsN u = true → sh'.nmu = some j) := by
+      intro j u hu
+      by_cases hj : j = i
+      · subst hj
+        simp [List.getElem?_set_self hlt] at hu
+        subst hu
+        exact ⟨g2, g3⟩
+      · rw [List.getElem?_set_ne (Ne.symm hj)] at hu
+        have ol := h.loc j u hu
+        have om := h.mux j u hu
+        -- another thread never holds the mutex together with the stepping one
+        have notboth : holdsN t = true → holdsN u = false := by
+          intro htt
+          cases hu' : holdsN u with
+          | false => rfl
+          | true =>
+            have a1 := om hu'
+            have a2 := h.mux i t ht htt
+            rw [a1] at a2
+            simp at a2
+            exact absurd a2 hj
+        rcases fr with ⟨e1, e2⟩ | ⟨e1, e2⟩ | e3
+        · exact ⟨nlLocal_frame ol gw (Or.inl e1), fun hh => by rw [e2]; exact om hh⟩
+        · refine ⟨nlLocal_frame ol gw (Or.inl e2), fun hh => ?_⟩
+          have := om hh; rw [e1] at this; simp at this
+        · have nh := notboth e3
+          exact ⟨nlLocal_frame ol gw (Or.inr nh), fun hh => by rw [nh] at hh; simp at hh⟩
+    refine ⟨⟨g1, ?_, ?_, ?_⟩, gw⟩
+    · intro j u hu
+      obtain ⟨u0, hu0, hor⟩ := applyWake_get ha j u hu
+      rcases hor with rfl | rfl
+      · exact (mid j _ hu0).1
+      · exact wake_nl (mid j u0 hu0).1
+    · intro j u hu hh
+      obtain ⟨u0, hu0, hor⟩ := applyWake_get ha j u hu
+      rcases hor with rfl | rfl
+      · exact (mid j _ hu0).2 hh
+      · rw [wake_holdsN] at hh; exact (mid j u0 hu0).2 hh
+    · intro r hr
+      have ho := h.ord
+      rcases stepThread_rets_range hs (h.loc i t ht) with e | ⟨tk, k1, k2, e⟩
+      · simp only at hr; rw [e] at hr
+        have := h.rng r hr
+        simp only; omega
+      · simp only at hr; rw [e] at hr
+        cases hr with
+        | head => simp only; omega
+        | tail _ hm =>
+          have := h.rng r hm
+          simp only; omega
+  | spurious i =>
+    obtain ⟨t, ht, _, rfl⟩ := next_spurious_inv hn
+    have hlt : i < s.threads.length := (List.getElem?_eq_some_iff.mp ht).1
+    refine ⟨⟨h.ord, ?_, ?_, h.rng⟩, Nat.le_refl _⟩
+    · intro j u hu
+      by_cases hj : j = i
+      · subst hj
+        simp [List.getElem?_set_self hlt] at hu
+        subst hu
+        exact wake_nl (h.loc j t ht)
+      · rw [List.getElem?_set_ne (Ne.symm hj)] at hu
+        exact h.loc j u hu
+    · intro j u hu hh
+      by_cases hj : j = i
+      · subst hj
+        simp [List.getElem?_set_self hlt] at hu
+        subst hu
+        rw [wake_holdsN] at hh
+        exact h.mux j t ht hh
+      · rw [List.getElem?_set_ne (Ne.symm hj)] at hu
+        exact h.mux j u hu hh
+
+theorem nlInv_reachable {cfg : Cfg} {v c0 : Nat} {progs : List (List Op)} {s : State}
+    (hr : Reachable cfg (initAt v c0 progs) s) : NlInv c0 s :=
+  reachable_induction (NlInv c0) (nlInv_init v c0 progs) (fun _ _ _ h hn => (nlInv_next h hn).1) s hr
+
 /-- the repaired notify list: nobody sleeps with a notified ticket -/
-theorem noStale_init (v : Nat) (progs : List (List Op)) :
-    AllT (NoStale (init v progs).sh.notify) (init v progs).threads :=
+theorem noStale_init (v c0 : Nat) (progs : List (List Op)) :
+    AllT (NoStale (initAt v c0 progs).sh.notify) (initAt v c0 progs).threads :=
   allT_start _ (fun p tk h => absurd h (start_not_listWaiting p tk)) progs
 
-theorem noStale_next {cfg : Cfg} {s s' : State} {a : Action} (h1 : cfg.ticketLess = true) (h2 : cfg.oneBroadcast = true)
+theorem noStale_next {cfg : Cfg} {c0 : Nat} {s s' : State} {a : Action} (h1 : cfg.ticketLess = true)
+    (h2 : cfg.oneBroadcast = true) (hI : NlInv c0 s) (hb : s.sh.wait < c0 + 2147483648)
     (h : AllT (NoStale s.sh.notify) s.threads) (hn : next cfg s a = some s') :
     AllT (NoStale s'.sh.notify) s'.threads := by
   cases a with
   | step i pick =>
     obtain ⟨t, sh', t', w, ev, ths, ht, hs, ha, rfl⟩ := next_step_inv hn
-    obtain ⟨hw, ht'⟩ := stepThread_notify hs h1 h2
+    obtain ⟨hw, ht'⟩ := stepThread_notify hs h1 h2 hI.ord (hI.loc i t ht) hb
     rcases hw with hw | hw
     · simp only
       rw [hw]
@@ -684,5 +909,17 @@ theorem noStale_next {cfg : Cfg} {s s' : State} {a : Action} (h1 : cfg.ticketLes
   | spurious i =>
     obtain ⟨t, ht, _, rfl⟩ := next_spurious_inv hn
     exact allT_set h (fun tk htk => absurd htk (wake_not_listWaiting t tk))
+
+/-- while fewer than 2^31 tickets have been drawn, nobody sleeps with a notified ticket (repaired notify list) -/
+theorem noStale_reachable {cfg : Cfg} {v c0 : Nat} {progs : List (List Op)} {s : State} (h1 : cfg.ticketLess = true)
+    (h2 : cfg.oneBroadcast = true) (hr : Reachable cfg (initAt v c0 progs) s) :
+    s.sh.wait < c0 + 2147483648 → AllT (NoStale s.sh.notify) s.threads := by
+  induction hr with
+  | refl => intro _; exact noStale_init v c0 progs
+  | step a hr' hn ih =>
+    intro hb
+    have hI := nlInv_reachable hr'
+    have hmono := (nlInv_next hI hn).2
+    exact noStale_next h1 h2 hI (by omega) (ih (by omega)) hn
 
 end LlgoVerif.Sema
